@@ -196,6 +196,7 @@ def fit_hook(fam, data, args, kw):
                 out[k] = SR(loc.t - 2 * sym._q(math.pi) * turns)
         else:
             out[k] = float(np.mod(float(loc) + np.pi, 2 * np.pi) - np.pi)
+        out[k + 1] = 1      # "scale is not handled": scipy returns 1 whatever was passed or fixed
     FIT_LOG.append({"family": fam, "data": data, "shape_starts": tuple(args), "loc_start": start["loc"],
                     "scale_start": start["scale"], "fixed": tuple(fixed), "result": tuple(out)})
     return tuple(out)
